@@ -122,7 +122,7 @@ def cover_inputs(case, rng, n, maxlen=24):
     return out
 
 
-SCRIPT_MODES = ("none", "random", "random", "random", "rejectall", "rejectfirst")
+SCRIPT_MODES = ("none", "random", "random", "random", "rejectall", "rejectfirst", "moreless")
 
 
 def make_script(rng, c, mode, maxops):
@@ -132,6 +132,13 @@ def make_script(rng, c, mode, maxops):
     if mode == "rejectfirst" and rej:
         k = rng.randint(1, 4)
         return [("R", 0)] * k + [("-", 0)] + traces.gen_script(rng, c, maxops=maxops)
+    if mode == "moreless" and c.cfg.get("yymore") and c.cfg.get("yymore") != "no":
+        # text kept by yymore() in one action, given back by yyless() in a later one (also reaching into the kept text)
+        out = []
+        for _ in range(rng.randint(2, 6)):
+            out += [("M", 0), ("-", 0)] * rng.randint(1, 2) + [("L", rng.randint(0, 3)), ("-", 0)]
+            if rng.random() < 0.4: out += [("-", 0)] * rng.randint(1, 2)
+        return out
     return traces.gen_script(rng, c, maxops=maxops)
 
 
